@@ -46,6 +46,8 @@ InsPool ==
         THEN {Ins("MOV", <<Rg(8, r), M16(6, -1, 0, 0)>>) : r \in {0, 1}} \cup {Ins("MOV", <<M16(3, -1, d, 1), Rg(8, r)>>) : r \in {0, 4}, d \in {1, 200}}
              \cup {Ins("MOV", <<Rg(16, r), M16(5, -1, 4, 1)>>) : r \in {0, 1}} \cup {Ins("MOV", <<Abs(4080), Rg(8, 5)>>), Ins("MOV", <<Rg(16, 0), Abs(4084)>>)}
              \cup {Ins("MOV", <<[t |-> "s", n |-> s], Rg(16, 0)>>) : s \in {0, 2, 3}}
+             \cup {Ins("MOV", <<Rg(w, 1), M16(b, x, 0, 0)>>) : w \in {8, 16}, b \in {3, 5}, x \in {6, 7}}      \* [BX+SI] [BX+DI] [BP+SI] [BP+DI]
+             \cup {Ins("MOV", <<M16(5, -1, 0, 0), Rg(16, 2)>>), Ins("ADD", <<Rg(16, 0), M16(5, 6, 2, 1)>>)}           \* [BP] (needs a zero disp8), [BP+SI+2]
         ELSE {})
 
 DataPool ==
@@ -67,19 +69,24 @@ Jcc == {"JMP", "JE", "JNE", "JC", "JNC", "JB", "JAE", "JZ", "JNZ", "JA", "JBE", 
 
 \* one random statement, kind chosen first (weights by repetition)
 Kinds == IF Flavor = "pic" THEN {"ins", "ins2", "ins3", "data"}
-         ELSE {"ins", "ins2", "ins3", "data", "label", "br", "br2", "lref", "dref", "equuse", "align"}
+         ELSE {"ins", "ins2", "ins3", "ins4", "data", "data2", "label", "label2", "br", "br2", "br3", "lref", "lref2", "dref", "dref2", "equuse", "equuse2", "align", "dir"}
 PickOf(kind) ==
-  CASE kind \in {"ins", "ins2", "ins3"} -> RandomElement(InsPool)
-    [] kind = "data" -> RandomElement(DataPool)
-    [] kind = "label" -> IF Undef = {} THEN RandomElement(InsPool) ELSE [k |-> "label", nm |-> LabName(RandomElement(Undef))]
-    [] kind \in {"br", "br2"} -> [k |-> "br", mn |-> RandomElement(Jcc), tgt |-> [t |-> "l", nm |-> LabName(RandomElement(Labs)), add |-> 0]]
+  CASE kind \in {"ins", "ins2", "ins3", "ins4"} -> RandomElement(InsPool)
+    [] kind \in {"data", "data2"} -> RandomElement(DataPool)
+    [] kind \in {"label", "label2"} -> IF Undef = {} THEN RandomElement(InsPool) ELSE [k |-> "label", nm |-> LabName(RandomElement(Undef))]
+    [] kind \in {"br", "br2", "br3"} -> [k |-> "br", mn |-> RandomElement(Jcc), tgt |-> [t |-> "l", nm |-> LabName(RandomElement(Labs)), add |-> 0]]
     \* a label used as an immediate may be defined before or after (both are supported: MOV SI,msg ... msg:)
-    [] kind = "lref" -> Ins("MOV", <<Rg(W, RandomElement({3, 6, 7})), [t |-> "l", nm |-> LabName(RandomElement(Labs)), add |-> 0]>>)
-    [] kind = "dref" -> IF defd = {} THEN RandomElement(DataPool)
+    [] kind \in {"lref", "lref2"} -> Ins("MOV", <<Rg(W, RandomElement({3, 6, 7})), [t |-> "l", nm |-> LabName(RandomElement(Labs)), add |-> 0]>>)
+    [] kind \in {"dref", "dref2"} -> IF defd = {} THEN RandomElement(DataPool)
                         ELSE [k |-> "data", mn |-> RandomElement({"DW", "DD"}), items |-> <<E([o |-> "id", nm |-> LabName(RandomElement(defd))])>>]
-    [] kind = "equuse" -> RandomElement({Ins("MOV", <<Rg(W, 1), [t |-> "l", nm |-> "CYLS", add |-> 0]>>), Ins("CMP", <<Rg(8, 5), [t |-> "l", nm |-> "CYLS", add |-> 0]>>),
+    [] kind \in {"equuse", "equuse2"} -> RandomElement({Ins("MOV", <<Rg(W, 1), [t |-> "l", nm |-> "CYLS", add |-> 0]>>), Ins("CMP", <<Rg(8, 5), [t |-> "l", nm |-> "CYLS", add |-> 0]>>),
                                          [k |-> "data", mn |-> "DW", items |-> <<E([o |-> "+", a |-> [o |-> "id", nm |-> "BASE"], b |-> Lit(2)])>>],
                                          [k |-> "resb", e |-> [o |-> "id", nm |-> "CYLS"]]})
+    \* directives that emit nothing and must not move the location counter (wherever they stand)
+    [] kind = "dir" -> RandomElement({[k |-> "cfg", mn |-> "SECTION", s |-> ".text"], [k |-> "cfg", mn |-> "SECTION", s |-> ".data"],
+                                      [k |-> "cfg", mn |-> "SECTION", s |-> ".bss"], [k |-> "cfg", mn |-> "INSTRSET", s |-> "\"i486p\""],
+                                      [k |-> "cfg", mn |-> "OPTIMIZE", s |-> "1"], [k |-> "cfg", mn |-> "PADDING", s |-> "1"],
+                                      [k |-> "bits", v |-> Bits]})
     [] kind = "align" -> [k |-> "alignb", v |-> RandomElement({2, 4, 16})]
 Pick == CHOOSE s \in {PickOf(k) : k \in {RandomElement(Kinds)}} : TRUE
 
